@@ -42,8 +42,11 @@ def run(m, chk):
             nsink += 1
             ks = v.all_kinds()
             src = sorted(str(s) for s in v.all_fsrc() if not isinstance(s, tuple))
-            # a float handed in by a (float) caller and handed back is not introduced by the library
-            bad = "F" in ks and bool(src)
+            # a float handed in by a (float) caller and handed back is not introduced by the library;
+            # kind L = an integer obtained by truncating a library float and then used as a value
+            bad = ("F" in ks and bool(src)) or "L" in ks
+            if "L" in ks and not src:
+                src = ["?: an integer obtained by int(<float computed by the library>) is used as a value"]
             chk.ob("E8", f"{q}: no library float reaches the {what}", not bad, loc=src[0].split(": ")[0] if (bad and src) else f"{ctx.fi.module}.py:{ctx.fi.node.lineno}",
                    detail="" if not bad else f"{q}: with exact input a float introduced by the library reaches the {what}: {'; '.join(src[:3]) or 'origin not tracked'}",
                    func=q, construct=f"float reaches {what.split(' ')[0]}: " + (src[0].split(': ', 1)[1][:60] if src else "?"))
@@ -61,6 +64,9 @@ def run(m, chk):
         chk.ob("FIXED-WIDTH", f"{q}: `{text[:50]}`", False, loc=loc, detail=f"{q}: `{text}` at {loc} casts an exact result to a fixed-width integer dtype: integers beyond 2**63 overflow (or wrap) although the exact path promises arbitrary precision", func=q, construct=f"fixed-width cast {text[:40]}")
     if not nfw:
         chk.ob("FIXED-WIDTH", "no fixed-width integer dtype on the exact paths", True, loc="", detail="")
+    from .extra import memo_key
+
+    memo_key(r, chk)
     # positive control: the kind analysis does see library floats where they are by design
     pc = AX.ctxs
     ctl = 0
